@@ -29,11 +29,11 @@ OUTSIDE = ["B above the bound for the value-level clauses (rank validity covers 
            "symbolic turnout draws in the interval cases (quotients of two symbolic sums: z3 did not finish B=2 with one outstanding "
            "unit in 26 minutes); they are symbolic in the I_boot cases", "the OLS / strata / generator numerics",
            "extrapolation and presidential-correction options (off by default)"]
-BOUNDS = {"quick": "ranks: every double alpha in (0,1) x B in 2..12, 16, 20, 32, 50, 64, 100, 500, 1000; I_boot: B=2..3 draws, 1-2 nonreporting "
+BOUNDS = {"quick": "ranks: every double alpha in (0,1) x B in 2..12, 16, 20, 32, 50, 64, 100, 500, 1000; I_boot: (B, units) in {(2,1),(2,2),(3,1)}, 1-2 nonreporting "
                    "units with symbolic expected vote / partial margin / turnout factor; intervals: 10 reporting, 3 nonreporting, 1 unexpected "
-                   "unit, B in {2,3}, level pairs {0.5,0.9} {0.7,0.99}, state + county / classification aggregates, margin draws symbolic, "
+                   "unit, B=2 with level pairs {0.5,0.9} {0.7,0.99} and B=3 with {0.7,0.99}, state + county / classification aggregates, margin draws symbolic, "
                    "turnout draws concrete",
-          "thorough": "ranks: B in 2..64 and a ladder to 2000; I_boot: B=4, 3 nonreporting; intervals: B up to 5"}
+          "thorough": "ranks: B in 2..64 and a ladder to 2000; I_boot: up to (4,2); intervals: B up to 5, all level pairs"}
 OPTS = {"quick": dict(case_timeout_s=900, solver_timeout_ms=120000), "thorough": dict(case_timeout_s=3300, solver_timeout_ms=600000)}
 
 
@@ -46,11 +46,13 @@ def cases(tier):
         # the level range is split at 2^-52: below it (1 - alpha) / 2 rounds to exactly 0.5 (see known_findings.json)
         out.append(dict(name="ranks_B%d" % B, kind="ranks", backend="cvc5", B=B, region="alpha>=2^-52", weight=50))
         out.append(dict(name="ranks_tiny_alpha_B%d" % B, kind="ranks", backend="cvc5", B=B, region="alpha<2^-52", weight=40))
-    for B, nt in ((2, 1), (3, 2)) if tier == "quick" else ((2, 1), (3, 2), (4, 3)):
+    for B, nt in ((2, 1), (2, 2), (3, 1)) if tier == "quick" else ((2, 1), (2, 2), (3, 1), (3, 2), (4, 2)):
         out.append(dict(name="iboot_B%d_n%d" % (B, nt), kind="iboot", B=B, n_test=nt, weight=40 * nt))
     for B in (2, 3) if tier == "quick" else (2, 3, 4, 5):
         for aggs in (["postal_code", "county_fips", "unit"], ["postal_code", "county_classification", "unit"]):
             for alphas in ([0.5, 0.9], [0.7, 0.99]):
+                if tier == "quick" and B == 3 and alphas[0] == 0.5:
+                    continue  # 5 min of z3 per case: thorough tier
                 out.append(dict(name="intervals_B%d_%s_%s" % (B, aggs[1][:6], alphas[1]), kind="intervals", B=B, alphas=alphas,
                                 units=BS.margin_units(10, 3, 1), aggregates=aggs, weight=30 * B))
                 if "county_classification" in aggs:
